@@ -13,6 +13,8 @@ PageTemplateFile.
 """
 from __future__ import annotations
 
+from harness import REPO_SRC  # noqa: E402
+
 import codecs
 import multiprocessing
 import os
@@ -68,7 +70,7 @@ def build_doc(rec, rnd, variant):
 
 def _case(args):
     rec, seed = args
-    sys.path.insert(0, "/repo/src")
+    sys.path.insert(0, REPO_SRC)
     from chameleon import PageTemplate, PageTemplateFile
     rnd = random.Random(seed)
     out = []
